@@ -462,6 +462,27 @@ def _(c):
     c.modifies("self.expr", "self.tokens.left", "self.tokens.right", "self.tokens.left[]", "self.tokens.right[]")   # nothing else is carried from one solve to the next
 
 
+# ---- a solver whose atom type is a factory FUNCTION (the way the unit, DIP and materials solvers configure it): whatever the outcome,
+#      a solve writes nothing but the expression and the two token buffers -- nothing learnt from the atoms of one solve is kept for the next
+@contract(f"{ES}.solve", ["C02"], name="ExpressionSolver.solve[atom-type-given-as-a-factory-function]")
+def _(c):
+    c.bound = "the unit parser as atom factory with the default operators; 5 texts (with and without unary signs, one refused part-way), fresh and used instances"
+    texts = ["-m", "m*-s", "m*s", "m * s +", "+m*s"]
+    for i, text in enumerate(texts):
+        for hist in ([], [texts[(i + 1) % len(texts)], texts[(i + 2) % len(texts)]]):
+            def pre(b, text=text, hist=hist):
+                es = b.new(ES, b.glob("units/unit_solver.py::AtomParser"))
+                for h in hist:
+                    b.call_catching(b.getattr(es, "solve"), h)
+                fresh = b.new(ES, b.glob("units/unit_solver.py::AtomParser"))
+                r, exc = b.call_catching(b.getattr(fresh, "solve"), text)
+                return dict(args=[es, text], env=dict(fresh_raises=exc is not None, fresh=r))
+            c.scenario(f"{text} {'after ' + ' , '.join(hist) if hist else 'fresh'}", pre)
+    c.raises("fresh_raises", label="raises-iff-a-fresh-instance-raises")
+    c.ensures("str(result) == str(fresh)", "same-value-as-a-fresh-instance")
+    c.modifies("self.expr", "self.tokens.left", "self.tokens.right", "self.tokens.left[]", "self.tokens.right[]")   # nothing else is carried from one solve to the next
+
+
 # ---- tables ----------------------------------------------------------------------------------------------------
 DOC_STEPS, DOC_ABBR = R.read_doc_tables()
 DOC_KIND = {"parenthesis": "ARGS", "unary": "UNARY", "binary": "BINARY"}
